@@ -30,9 +30,10 @@ type LoopSpec struct {
 }
 
 type CallAssert struct {
-	Callee string
-	K      int
-	C      Clause
+	Callee  string
+	K       int
+	C       Clause
+	Matched bool // the directive was applied to some call (an unmatched directive is a contract error)
 }
 
 type FuncContract struct {
